@@ -60,7 +60,8 @@ def s1(prog, ctx, fns, exc):
                 continue
             seen.add(u.key)
             ctx.fail("S1", inst, u.node.where,
-                     "`%s` may be NULL (a key without delimiter has no value; entries may have no comment) and reaches %s without a test" % (u.access, u.sink),
+                     ("`%s` answers NULL when there is no further token / no match, and the result reaches %s without a test" if u.access.endswith("(...)") else
+                      "`%s` may be NULL (a key without delimiter has no value; entries may have no comment) and reaches %s without a test") % (u.access, u.sink),
                      key="null:" + u.key, path=u.path)
     ctx.floor("C04.S1 uses of nullable fields in dereferencing positions", len(uses), 12)
 
@@ -147,7 +148,7 @@ def s2(prog, ctx, fns, exc):
                 ctx.fail("S2", inst, x.where,
                          "for an empty `%s` the expression addresses the byte BEFORE the buffer (strlen - 1 wraps around): out-of-bounds read/write" % X,
                          key="lastchar:" + key, path=cfg.describe_path(wp)[-6:])
-    ctx.floor("C04.S2 last-character expressions", n, 4)
+    ctx.floor("C04.S2 last-character expressions", n, 2)
 
 
 def _advanced_past_char(f, rd, X, use):
@@ -256,7 +257,7 @@ def s3(prog, ctx, fns, exc):
             else:
                 ctx.fail("S3", inst, w.where, "the pointer is decremented while the pointee matches, with no lower bound: it walks off the start of the buffer",
                          key="backwalk:" + key)
-    ctx.floor("C04.S3 backward walks", n, 4)
+    ctx.floor("C04.S3 backward walks", n, 2)
     # S3b: a pointer set to the END of a string (X + strlen(X)) may be written through at offset +k only after it has certainly
     # been moved back k times - otherwise the store lands behind the terminator (for the empty string: behind the buffer)
     for f in fns:
